@@ -99,6 +99,8 @@ class Increments(Machine):
     def _cfg(cls, rng):
         fam = rng.choice(FAMILIES)
         cfg = {"family": fam, "seed": rng.getrandbits(32), "scale_exp": rng.choice([-6, -3, 0, 0, 0, 3, 6])}
+        if fam.startswith("pca") and rng.random() < 0.12:
+            cfg["scale_exp"] = -10      # means of order 1e-10: tiny, but not zero
         if fam.startswith("pca"):
             cfg.update(centred=rng.random() < 0.65, d=rng.randint(2, 10) if fam == "pca_vec" else 2 * rng.randint(2, 5))
             cfg["n0"] = rng.randint(2, 14)
